@@ -346,6 +346,80 @@ pub fn run(tier: Tier) -> i32 {
             }
         }
     }
+    // ---- the same configuration written otherwise: trailing comments, the generated template with keys uncommented
+    //      (its hint left on the line), other key order, CRLF line ends, blank lines, spaces, integer forms; and files
+    //      with a value its key cannot hold next to a wrong `cdps`. Oracle: a file the tool accepts means what the plain
+    //      file means (same custom codes, same exit status); a file it refuses is refused before anything is analysed -
+    //      never "accepted and ignored"
+    {
+        let wrong_cdps = t.cdps as i64 + 1;
+        let template = {
+            let scratch = Scratch::new("c20t");
+            let _ = Run::new(&["--generate-checks-toml".to_string()]).cwd(&scratch.path).run();
+            std::fs::read_to_string(scratch.join("custom_checks.toml")).unwrap_or_default()
+        };
+        let from_template = |sets: &[(&str, String)]| -> String {
+            template
+                .lines()
+                .map(|l| {
+                    for (k, v) in sets {
+                        if let Some(rest) = l.strip_prefix(&format!("#{k} = ")) {
+                            // "#cdps = None [ u32 ] # (Uncomment and set to enable)" -> "cdps = 11 # (Uncomment and set to enable)"
+                            let hint = rest.find('#').map(|i| &rest[i..]).unwrap_or("");
+                            return format!("{k} = {v} {hint}");
+                        }
+                    }
+                    l.to_string()
+                })
+                .collect::<Vec<_>>()
+                .join("\n")
+        };
+        // (text, expected custom codes if accepted)
+        let e9001: BTreeSet<&str> = ["E9001"].into_iter().collect();
+        let both: BTreeSet<&str> = ["E9001", "E9002"].into_iter().collect();
+        let none: BTreeSet<&str> = BTreeSet::new();
+        let mut files: Vec<(String, String, BTreeSet<&str>)> = vec![
+            ("trailing comment".into(), format!("cdps = {wrong_cdps} # expected CDPs\n"), e9001.clone()),
+            ("template, cdps set, hint kept".into(), from_template(&[("cdps", wrong_cdps.to_string())]), e9001.clone()),
+            ("template, cdps and triggers_pht set".into(), from_template(&[("cdps", wrong_cdps.to_string()), ("triggers_pht", (t.pht + 1).to_string())]), both.clone()),
+            ("template, true values".into(), from_template(&[("cdps", t.cdps.to_string()), ("triggers_pht", t.pht.to_string()), ("rdh_version", "7".into())]), none.clone()),
+            ("CRLF line ends".into(), format!("cdps = {wrong_cdps}\r\ntriggers_pht = {}\r\n", t.pht), e9001.clone()),
+            ("keys in reverse order, blank lines, spaces".into(), format!("\n\n   triggers_pht   =   {}\n\n cdps={wrong_cdps}\n\n", t.pht + 1), both.clone()),
+            ("underscore and plus sign".into(), format!("cdps = +{}\ntriggers_pht = {}\n", wrong_cdps, if t.pht >= 1000 { format!("{}_{:03}", t.pht / 1000, t.pht % 1000) } else { t.pht.to_string() }), e9001.clone()),
+            ("hexadecimal".into(), format!("cdps = {:#x}\n", wrong_cdps), e9001.clone()),
+            ("comment lines in between".into(), format!("# a\ncdps = {wrong_cdps}\n# b\n#triggers_pht = 3\n"), e9001.clone()),
+        ];
+        // a value the key cannot hold, next to the wrong cdps: refused, or at least cdps still enforced
+        for (label, extra) in [("chip_count_ob = 256", "chip_count_ob = 256"), ("rdh_version = 0x107", "rdh_version = 0x107"), ("triggers_pht = 2^32", "triggers_pht = 4_294_967_296"), ("negative triggers_pht", "triggers_pht = -1"), ("float cdps twin", "chip_count_ob = 7.0"), ("flat chip_orders_ob", "chip_orders_ob = [0, 1, 2]"), ("string value", "rdh_version = \"7\""), ("unknown key", "no_such_key = 1")] {
+            files.push((format!("out-of-schema: {label}"), format!("cdps = {wrong_cdps}\n{extra}\n"), e9001.clone()));
+        }
+        let fres = par_map(&files, |_, (_, text, _)| run_cli(&t, Some(text), &mode));
+        for ((label, text, want), r) in files.iter().zip(fres.iter()) {
+            match r {
+                // a crash of the tool on a file it cannot use counts as a refusal only if nothing was analysed: run_cli
+                // reports signals; a panic exit (101) without a report is a refusal
+                // a file whose values do not fit is outside the "well-formed configuration files" the tool must cope
+                // with: being thrown out while the file is loaded (this tool panics there) is a refusal
+                Err(_) if label.starts_with("out-of-schema") => {}
+                Err(e) => rep.violation(Violation { signature: "custom:file-form:crash".into(), description: format!("{e} [{label}]"), replay: json!({"toml": text}) }),
+                Ok((codes, full, status)) => {
+                    let analysed = full.contains("Total RDHs");
+                    if !analysed && *status != Some(0) {
+                        continue; // refused before the analysis: acceptable for any spelling
+                    }
+                    let got: BTreeSet<&str> = codes.iter().map(|s| s.as_str()).filter(|c| custom_codes.contains(c)).collect();
+                    let want_status = if want.is_empty() { Some(0) } else { Some(9) };
+                    if got != *want || *status != want_status {
+                        rep.violation(Violation {
+                            signature: format!("custom:file-form:{}", if label.starts_with("out-of-schema") { "accepted-and-ignored" } else { "other-meaning-than-the-plain-file" }),
+                            description: format!("checks file ({label}) was accepted (data analysed, exit {:?}) with custom codes {:?}; the plain file gives {:?} / exit {:?}", status, got, want, want_status),
+                            replay: json!({"toml": text, "input_hex": hex(&t.bytes)}),
+                        });
+                    }
+                }
+            }
+        }
+    }
     // generated default file == no file (in check all its too)
     {
         let scratch = Scratch::new("c20g");
